@@ -73,10 +73,13 @@ def families(tier):
     for warm, n_actor, hshape in itertools.product(('await', 'ff_sleep'), (1, 2), ('pause', 'ret')):
         hs = [dict(bus='A', pat='X', name='hxA', prog=[('pause',)] if hshape == 'pause' else [('ret', 0)])]
         main = ([('disp', 'A', 'X0', 'await'), ('sleep', 0.25)] if warm == 'await' else [('disp', 'A', 'X0', 'ff'), ('sleep', 0.35)]) + [('idle', 'A'), ('pause',), ('idle', 'A')]
-        actor = [('sleep', 0.2), ('pause',), ('disp', 'A', 'X1', 'ff')] + ([('pause',), ('disp', 'A', 'X2', 'ff')] if n_actor == 2 else [])
+        actor = [('sleep', 0.2), ('pause',), ('disp', 'A', 'X1', 'ff')] + ([('pause',), ('disp', 'A', 'X2', 'ff')] if n_actor == 2 else [('redisp', 'A', 'X0'), ('pause',), ('redisp', 'A', 'X0')])
         out.append(dict(prop='C15', family='c15.idle.race_after_idle', id=f'c15/race-{warm}-a{n_actor}-{hshape}', cfg=dict(cfg, bound=3 if not deep else 4, cap=6000 if not deep else 60000),
                         params=dict(ps='race', when='after', tmo=None),
                         scn=dict(buses={'A': {}}, order=['A'], handlers=hs, main=main, actors=[actor], forwards=[], settle=2.0)))
+    # the grammar-generated corpus shared by the bus properties (vsched/gen.py), judged by this property's oracle
+    from .. import gen
+    out += gen.family('C15', tier, params=dict(ps='gen', when='paused', tmo=None), timeouts=(None, 0.5) if tier == 'thorough' else (None,), main_mode='idle', allow_forward=(tier == 'thorough'))
     return out
 
 
